@@ -28,19 +28,20 @@ Definition bind {A B} (r : res A) (f : A -> res B) : res B :=
 Definition stream := (list nd * option fault)%type.
 
 (* ---------------------------------------------------------------- axes (class Axis) *)
-(* _DocumentNode has iterate_children / iterate_descendants only: every other generator raises
-   AttributeError when it touches the document node (ancestor_or_self after yielding it). *)
+(* On the _DocumentNode (the XPath root node) Axis.evaluate runs the generator only for child, descendant,
+   descendant_or_self and self; ancestor_or_self yields the node itself; every other axis yields nothing: the root
+   node has neither ancestors nor siblings nor following / preceding nodes (fix c9f24a8). *)
 Definition d_axis (D : itree) (a : axis) (n : nd) : stream :=
   match a with
   | AxSelf => ([n], None)
   | AxChild => (children n, None)
   | AxDescendant => (descendants n, None)
   | AxDescendantOrSelf => (n :: descendants n, None)
-  | AxAncestorOrSelf => if is_doc n then ([n], Some (FCrash AttributeError)) else (n :: ancestors D n, None)
   | AxOther _ => ([], Some (FCrash TypeError))
   | _ =>
-      if is_doc n then ([], Some (FCrash AttributeError))
+      if is_doc n then (match a with AxAncestorOrSelf => [n] | _ => [] end, None)
       else match a with
+           | AxAncestorOrSelf => (n :: ancestors D n, None)
            | AxAncestor => (ancestors D n, None)              (* iterate_ancestors, then _DocumentNode *)
            | AxParent => (parent D n, None)                   (* `parent is not None`: the parent, else _DocumentNode *)
            | AxFollowingSibling => (following_siblings D n, None)
@@ -80,9 +81,10 @@ Definition d_test (m : nsmap) (t : node_test) (c : nd) : res bool :=
                Ok (str_eqb ns want && str_eqb name l)
            | _ => Ok false
            end
-  | NodeTypeTest k => Ok (is_doc c || kind_matches k (ipayload (snd c)))     (* _DocumentNode passes every type test *)
+  | NodeTypeTest k =>                           (* the root node passes node() like tag nodes, but no other type test *)
+      Ok (if is_doc c then match k with KTagNode => true | _ => false end else kind_matches k (ipayload (snd c)))
   | ProcessingInstructionTest target =>
-      if is_doc c then Crash AssertionError
+      if is_doc c then Ok false
       else match ipayload (snd c) with PPI tg _ => Ok (str_eqb tg target) | _ => Ok false end
   end.
 
@@ -190,7 +192,7 @@ Fixpoint d_expr (m : nsmap) (e : expr) (c : nd) (pos size : N) {struct e} : res 
   | AttributeValue p l =>
       if unknown_prefix m p then Rejected XPathEvaluationError
       else if is_tagnode c then Ok (PStr (opt_default [] (delb_attr (ipayload (snd c)) (attr_ns m p) l)))
-      else Ok PNone
+      else Ok (PStr [])                              (* not a tag node: an empty string (fix c8b3442) *)
   | HasAttribute p l =>
       if unknown_prefix m p then Rejected XPathEvaluationError
       else if is_tagnode c
@@ -245,7 +247,7 @@ Definition d_path (D : itree) (m : nsmap) (p : path) (ctx : nd) : stream :=
   let '(LocationPath absolute steps) := p in
   fold_left (fun acc s => d_step D m s acc) steps ([if absolute then ([], D) else ctx], None).
 
-(* XPathExpression.evaluate: the paths one after the other; `assert not isinstance(result, _DocumentNode)` *)
+(* XPathExpression.evaluate: the paths one after the other *)
 Fixpoint d_paths (D : itree) (m : nsmap) (ps : list path) (ctx : nd) : stream :=
   match ps with
   | [] => ([], None)
@@ -255,10 +257,10 @@ Fixpoint d_paths (D : itree) (m : nsmap) (ps : list path) (ctx : nd) : stream :=
               end
   end.
 Definition eval_stream := d_paths.
+(* the root node can't be represented in a result: it is skipped; every other node once *)
 Definition eval (D : itree) (m : nsmap) (e : xpath_expr) (ctx : nd) : res (list nd) :=
   let '(l, f) := d_paths D m e ctx in
-  if existsb is_doc l then Crash AssertionError
-  else match f with Some x => Fault x | None => Ok (dedup l) end.
+  match f with Some x => Fault x | None => Ok (dedup (filter (fun n => negb (is_doc n)) l)) end.
 
 (* ---------------------------------------------------------------- QueryResults.in_document_order *)
 (* _sort_nodes_in_document_order: TagNodes only; a trie keyed by the index tuples, emitted with sorted keys *)
